@@ -65,7 +65,7 @@ func verifDispatchOnce(ci int, L int) {
 // H_c01_dispatch: every command id, body of every length 0..verifDispatchMaxL, all byte values.
 func H_c01_dispatch() {
 	ci := nondet_choice("cmd", len(verifCommands)+1)
-	L := nondet_choice("L", verifDispatchMaxL+1)
+	L := nondet_choice("L", verif_bound("dispatch-raw-maxL", verifDispatchMaxL, 11)+1)
 	verifDispatchOnce(ci, L)
 }
 
